@@ -390,7 +390,7 @@ Section save_open.
 
   (* ====================================================================================== *)
   (* INTEGRITY: a file that starts with the honest outer header and opens, under the same key elements, as
-     a database OTHER than the one saved has lost its whole block stream or carries a forged block MAC. *)
+     a database OTHER than the one saved carries a forged block MAC. *)
   Theorem save_open_altered_file :
     forall cfg atts c d vd elements f minor f' db',
     let db := mkDb cfg atts c in
@@ -414,8 +414,7 @@ Section save_open.
       /\ outer_enc (c_outer cfg) (master_key_of sha256 (d_master_seed d) t) (d_iv d) p = Ok ct
       /\ let hk := hmac_key_of sha512 (d_master_seed d) t in
          f = header ++ sha256 header ++ header_mac sha512 hmac256 hk header ++ write_blocks sha512 hmac256 ct hk
-         /\ (drop (length header + 64) f' = []
-             \/ Forgery sha512 hmac256 hk (honest_triples ct) (drop (length header + 64) f')).
+         /\ Forgery sha512 hmac256 hk (honest_triples ct) (drop (length header + 64) f').
   Proof.
     intros cfg atts c d vd els f minor f' db' db Hver Hminor Hdraws Hperm Hkdf Hatts Hwf Hlex Hsave header
            Hhead Hopen Hdiff.
